@@ -7,7 +7,7 @@ from client_gen import Scenario
 import client_mon as M
 
 
-def run_scenarios(ctx, prop, n, steps=60, profile="mixed", scenario_cls=Scenario, seeds=None):
+def run_scenarios(ctx, prop, n, steps=60, profile="mixed", scenario_cls=Scenario, seeds=None, on_scenario=None):
     hb, hlog = build_harness("h_client")
     if hb is None:
         ctx.ties_broken.append("harness:h_client does not compile: " + hlog[-800:]); return []
@@ -20,6 +20,7 @@ def run_scenarios(ctx, prop, n, steps=60, profile="mixed", scenario_cls=Scenario
         s = scenario_cls(h, random.Random(seed), profile=profile).run(steps)
         h.close()
         total_lines += len(s.tr)
+        if on_scenario: on_scenario(seed, s)
         for kk, vv in s.stat.items(): stat[kk] = stat.get(kk, 0) + vv
         if s.stat.get("drop", 0) + s.stat.get("connect", 0) >= 2 and len(s.ops) > 3: nontriv.add(tuple(l for l, _, _, _ in s.tr))
         v = M.View(s)
@@ -77,3 +78,37 @@ def report(ctx, prop, fails, profile="mixed", scenario_cls=Scenario):
                              "script": [l for l, _, _, _ in s.tr], "events": [" | ".join(e)[:400] for _, e, _, _ in s.tr],
                              "replay_hint": "feed `script` line by line to .build/h/h_client/*"})
     return True
+
+
+def session_abstract(s):
+    """abstract inputs of the session flag machine read off a transcript, and the number of session_expired reports delivered"""
+    toks = []
+    for line, evs, st, t in s.tr:
+        ws = line.split()
+        if ws[0] == "reconnect": toks.append("c" + ws[2])
+        # the refresh happens at the start of the handler, a SUBACK processed later in the same drain comes after it
+        if ws[0] in ("rdone", "wdone") and len(ws) > 2 and ws[2] == "try_again": toks.append("u")
+        for e in evs:
+            if e.startswith("done S") and " ok " in e:
+                rcs = e.split("rcs=")[1].split()[0]
+                if rcs != "-" and any(int(x) < 0x80 for x in rcs.split(",")): toks.append("s")
+    delivered = sum(1 for i, ev in s.done_seq if ev.startswith("recvd ") and " client:" in ev)
+    return toks, delivered
+
+
+def session_corr(ctx, collected):
+    """Lean session model on the abstract inputs vs the reports the real client delivered (scenarios whose channel was drained)"""
+    mdrv, _ = build_mdrv()
+    if mdrv is None: return
+    qs = []; impl = []
+    for seed, s in collected:
+        if not getattr(s, "channel_drained", False) or s.crashed: continue
+        toks, delivered = session_abstract(s)
+        qs.append("sess " + " ".join(toks)); impl.append(str(delivered))
+    if not qs: return
+    model, _, _ = run_lines(mdrv, qs)
+    model = [str(m.count("1")) for m in model]
+    mism = diff_outputs(qs, impl, model)
+    ctx.count("session-abstract-replays", len(qs))
+    if mism:
+        ctx.ties_broken.append(f"correspondence:session flag model predicts a different number of session_expired reports than the client delivered on {len(mism)} scenarios, first: {mism[0]}")
